@@ -1,6 +1,7 @@
 (* C09 - A metric behaves as a map from label tuples to values. *)
-From V Require Import Metrics.LabelKey Metrics.MetricMap
-  Proofs.LabelKeyProofs Proofs.MetricMapProofs Proofs.MetricMapCorollaries.
+From V Require Import Metrics.LabelKey Metrics.MetricMap Metrics.EmitProto
+  Proofs.LabelKeyProofs Proofs.MetricMapProofs Proofs.MetricMapCorollaries
+  Proofs.EmitProtoProofs.
 
 (* for any injective key encoding, every operation sequence on the concrete
    metric (slice + index) produces the outputs of, and ends in the state of, the
@@ -51,6 +52,55 @@ Example C09_reachable_nontrivial :
        [OSet [[97]]%N (VInt 1) 5%Z; OInc [[98]]%N 3%Z 6%Z; ORemove [[97]]%N; OExpire [[98]]%N 9%Z])).
 Proof. exists [OSet [[97]]%N (VInt 1) 5%Z; OInc [[98]]%N 3%Z 6%Z; ORemove [[97]]%N; OExpire [[98]]%N 9%Z]. eexists. apply surjective_pairing. Qed.
 
+(* ---- enumeration as a protocol (Metrics/EmitProto.v): the producer is the
+   statement IR re-extracted from EmitLabelSets on every run, the consumer may
+   stay away [pauses] (any list of delays) before each of its receives ---- *)
+
+(* a producer of an accepted shape (one loop over the label values, exactly one
+   unconditional send per element, exactly one close, direct or deferred):
+   for EVERY consumer schedule the consumer receives exactly the elements, in
+   order, each once, and then sees the close *)
+Theorem C09_emit_complete_any_consumer :
+  forall (A : Type) (pauses : list N) (p : list tstm) (items : list A),
+    emit_ok p = true -> run_emit pauses p items = (items, EndClosed).
+Proof. exact (@emit_complete). Qed.
+
+(* on a metric: whatever the consumer's delays, it receives the abstract map's
+   items in insertion order: every live tuple exactly once with its current
+   cell, nothing else, and then the close *)
+Theorem C09_emit_protocol_once :
+  forall p n t m pauses, emit_ok p = true -> reachable n t m ->
+  exists l, c_emit_protocol p pauses m = (l, EndClosed) /\
+            map (fun x => (fst (fst x), (snd (fst x), snd x))) l = a_items (abs m) /\
+            NoDup (map (fun x => fst (fst x)) l) /\
+            (forall ls q c, In (ls, q, c) l <-> a_find ls (a_items (abs m)) = Some (q, c)).
+Proof. exact emit_protocol_once. Qed.
+
+(* the statement is not true of a producer whose send competes with a timer:
+   for every timeout d there is a consumer schedule (stay away d+1 after the
+   first element) under which the consumer gets one element of several - and a
+   close that looks like a normal end *)
+Theorem C09_emit_giveup_truncates :
+  forall (A : Type) (d : N) (x : A) (rest : list A), rest <> [] ->
+    run_emit [0; d + 1]%N (emitter_giveup d) (x :: rest) = ([x], EndClosed).
+Proof. exact (@emit_giveup_truncates). Qed.
+
+Example C09_emitter_repo_accepted : emit_ok emitter_repo = true.
+Proof. exact emitter_repo_ok. Qed.
+Example C09_emitter_deferred_close_accepted :
+  emit_ok [TDeferClose; TPlain; TRange [BPlain; BSend; BPlain]] = true.
+Proof. reflexivity. Qed.
+Example C09_emitter_giveup_rejected : emit_ok (emitter_giveup 5000) = false.
+Proof. exact (emitter_giveup_rejected 5000). Qed.
+(* a slow consumer of the repository's emitter on a reachable metric with two
+   live tuples (one removed before): both arrive, in order, then the close *)
+Example C09_emit_slow_nontrivial :
+  c_emit_protocol emitter_repo [200; 6000; 0]%N
+    (fst (c_run encode (c_init 1 TInt)
+       [OSet [[97]]%N (VInt 1) 5%Z; OInc [[98]]%N 3%Z 6%Z; OSet [[99]]%N (VInt 4) 7%Z; ORemove [[97]]%N]))
+  = ([([[98]]%N, 1%N, mkcell (VInt 3) 6%Z 0%Z); ([[99]]%N, 2%N, mkcell (VInt 4) 7%Z 0%Z)], EndClosed).
+Proof. reflexivity. Qed.
+
 Print Assumptions C09_refines.
 Print Assumptions C09_refines_from_init.
 Print Assumptions C09_emit_once.
@@ -58,3 +108,10 @@ Print Assumptions C09_remove_absent_noop.
 Print Assumptions C09_expire_absent_error.
 Print Assumptions C09_wrong_arity_unchanged.
 Print Assumptions C09_other_tuples_untouched.
+Print Assumptions C09_emit_complete_any_consumer.
+Print Assumptions C09_emit_protocol_once.
+Print Assumptions C09_emit_giveup_truncates.
+Print Assumptions C09_emitter_repo_accepted.
+Print Assumptions C09_emitter_deferred_close_accepted.
+Print Assumptions C09_emitter_giveup_rejected.
+Print Assumptions C09_emit_slow_nontrivial.
